@@ -170,6 +170,19 @@ func Run(r *core.Run) {
 					}
 				}
 			}
+			{
+				m := k.JWKMap()
+				delete(m, "x")
+				muts = append(muts, mj{base + "/x-member-missing", m})
+				if t != "Ed25519" {
+					m2 := k.JWKMap()
+					delete(m2, "y")
+					muts = append(muts, mj{base + "/y-member-missing", m2})
+				}
+				m3 := k.JWKMap()
+				m3["x"] = nil
+				muts = append(muts, mj{base + "/x-null", m3})
+			}
 			if t != "Ed25519" {
 				mk("swapped", y, x)
 				mk("zero-point", make([]byte, w), make([]byte, w))
@@ -200,7 +213,7 @@ func Run(r *core.Run) {
 			}
 			return nil
 		})
-		r.Observe(core.J(m.jwk))
+		r.Observe(m.id, core.J(m.jwk))
 		if want {
 			r.Class("mutated-valid")
 		} else {
